@@ -780,6 +780,7 @@ pub fn check(case: &Case, out: &mut CaseOut) {
 
 pub fn property() -> Property {
     Property {
+        fuzz: vec![],
         id: "C16",
         rule: "a case = workload of 3..12 overlapping scenarios on ONE endpoint (DialogLayer + InviteLayer + accepting application, datagram transport, connection factory and listener): client non-INVITE / INVITE transactions (peer never answers / provisional only / 200 / 486, after 1 ms .. 33 s), server requests with retransmissions, UAS calls (accept with/without ACK, reject, acceptor dropped, acceptor held; peer CANCEL / BYE), UAC calls through Initiator (ringing, 200 with retransmission, 486, silence), floods of 100..2000 orphan responses / stray ACKs / unmatched CANCELs / unknown requests / retransmissions, inbound and outbound connections, STUN binding requests (answered or not); every scenario's application objects are optionally dropped 0 ms .. 40 s after its start (task abort). Tables sampled every 500 ms of virtual time and once after everything is dropped and 64*T1 + 32 s + T4 + 64 s have passed. floods sub-check enumerates flood kind x size x companion scenario. Non-trivial = an early drop together with a flood or a never-answering peer, or a flood next to another live scenario; distinct by workload.",
         assumptions: vec![
